@@ -42,7 +42,7 @@ CLAIMED = {
     "C03": ("Theorems. Queue level: after any prefix of any operation history the queue directory reloads to exactly the reference queue of that prefix; a torn position file only rewinds. World level, about the disk left by a timeout pass "
             "under EVERY oracle (returned, reported an error, or the process died before any call): the queue directory still refines a reference queue that is a suffix of the original entries under their original link names, holds "
             "nothing but numbered links, no stored file changed, and load_linq on that disk succeeds and yields exactly that suffix; for every honest oracle (any crash, any errno that does not itself mean an expected condition, any short "
-            "non-zero transfer): if the link of the first entry is gone, the store holds a file with the source's bytes (pop only after the copy); if the gone link was a project entry (and no access() probe failed: K5), the snapshot directory exists and is complete - exactly the entries the snapshot theorem prescribes - and later iterations never touch it; if the link is still there, load_linq yields the original entries (every oracle); for a member entry the unstable link is old, absent or the new inode. Tie: the implementation is really killed (_exit) before every system call of 19 scenario "
+            "non-zero transfer): if the link of the first entry is gone, the store holds a file with the source's bytes (pop only after the copy); if the gone link was a project entry (and no access() probe failed: K5), the snapshot directory exists and is complete - exactly the entries the snapshot theorem prescribes - and later iterations never touch it; if the link is still there, load_linq yields the original entries (every oracle); for a member entry the unstable link is old, absent or the new inode. Recovery: what a pass over n due plain entries leaves under every honest oracle (crash anywhere) is characterised exactly; load_linq then yields the unpopped suffix and a fault-free pass empties the queue with at least one complete version per entry, nothing old changed, at most two new files per entry (at-least-once). Tie: the implementation is really killed (_exit) before every system call of 19 scenario "
             "families, restarted and drained, and compared with the model under the same crash index; monitors: recovery (files and projects), store immutable, queue form, position not ahead of the store.",
             NOTE + "Crash = process death between two system calls with completed calls durable. 'Pop after copy / snapshot' is proved for the first entry of a pass (file, member, project); later entries, accept and reload operations are covered by the "
             "suffix / immutability theorems and the enumeration. Known finding K3 (reload changing queue_path strands pending entries).",
@@ -87,7 +87,7 @@ CLAIMED = {
             "call-log counting judgement for all oracles; measurement on the implementation + correspondence"),
     "C07": ("Theorems: the pid table is a set for process ids of any magnitude and any initial size (marked iff the last operation was a set); after any sequence of execution events the table "
             "marks exactly the processes the property's wording calls editors and the recorded loaders are the interpreters of the editor binaries seen; non-editor writes are queued only when an "
-            "included/history entry decides, editor writes unless hidden/excluded decides; handler level: the program handle_open_exec performs exactly one step of the attribution machine (benign oracles), a failing call never changes the marks (every oracle), so after any sequence of execution events the real handler marks exactly the property's editors. Tie: the real bit table on random sequences (pids up to 2^22, sizes from 0), and the real handler on "
+            "included/history entry decides, editor writes unless hidden/excluded decides; handler level: the program handle_open_exec performs exactly one step of the attribution machine (benign oracles), a failing call never changes the marks (every oracle), so after any sequence of execution events the real handler marks exactly the property's editors; over MIXED histories of execution and write events (any pid : N) the marks equal the property's clauses folded over the exec events and the on-disk queue refines exactly one entry per write whose verdict (editor status before that write, deciding class) is 'queue': non-editors' writes to paths that are not force-included are never queued, editors' writes to visible non-excluded paths always are; a write event never changes the marks (every oracle). Tie: the real bit table on random sequences (pids up to 2^22, sizes from 0), and the real handler on "
             "exec/write histories with editor scripts, ELF editors with PT_INTERP, their loaders and non-editors.",
             NOTE + "An executed file must not be the journal itself (side condition of the sequence theorem).", "induction over event histories + refinement of the handler program to the pure machine; differential correspondence + attribution monitor"),
     "C12": ("Theorems over the model of main(): for every command line, mount table, ownership and every combination of failing or ineffective stat/setgroups/setgid/setuid, main's actions are a "
